@@ -40,6 +40,17 @@ XAnswer ==
         /\ h' = Append(h, [op |-> "answer", node |-> t.at, occ |-> t.occ, vars |-> pl,
                            kind |-> kn[1], n |-> kn[2], cands |-> <<>>, evs |-> <<>>, pre |-> Cnt(s)])
 
+\* the request of an activity that an interrupting boundary event has interrupted is answered
+\* afterwards: must have no effect at all ("even if the task is answered afterwards")
+XAnswerIntr ==
+  /\ "deliver" \in Features
+  /\ Len(h) < MaxSteps
+  /\ (Len(h) > 0 => h[Len(h)].op # "deliverc")
+  /\ \E r \in s.intr :
+        /\ s' = [s EXCEPT !.intr = @ \ {r}]
+        /\ h' = Append(h, [op |-> "answer", node |-> r[1], occ |-> r[2], vars |-> <<>>,
+                           kind |-> "", n |-> 0, cands |-> <<>>, evs |-> <<>>, pre |-> Cnt(s)])
+
 \* a further Do on the request answered last: must have no effect at all
 XAgain ==
   /\ "again" \in Features
@@ -109,7 +120,7 @@ XDeliverC ==
         /\ h' = Append(h, [Step0 EXCEPT !.op = "deliverc",
                               !.evs = [j \in DOMAIN q |-> [k |-> q[j][1], ref |-> q[j][2]]]] @@ [pre |-> Cnt(s)])
 
-XNext == XAnswer \/ XAgain \/ XAnswerC \/ XWait \/ XDeliver \/ XDeliverC
+XNext == XAnswer \/ XAnswerIntr \/ XAgain \/ XAnswerC \/ XWait \/ XDeliver \/ XDeliverC
 XSpec == XInit /\ [][XNext]_<<s, h>>
 
 \* a schedule is maximal when nothing is left to answer (a wait-enabled export
